@@ -306,6 +306,33 @@ func loopVarOfType(d *declInfo, typeName string) types.Object {
 		if o := objOf(d.pkg, rs.Value); o != nil && typeIs(o.Type(), "", typeName) {
 			out = o
 		}
+		// index loop with the element bound to a local: for i := range xs { x := &xs[i] … }
+		if out == nil && rs.Key != nil {
+			ko := objOf(d.pkg, rs.Key)
+			for _, st := range rs.Body.List {
+				as, isAs := st.(*ast.AssignStmt)
+				if !isAs || as.Tok != token.DEFINE || len(as.Lhs) != 1 || len(as.Rhs) != 1 {
+					continue
+				}
+				rhs := as.Rhs[0]
+				if u, isU := rhs.(*ast.UnaryExpr); isU && u.Op == token.AND {
+					rhs = u.X
+				}
+				ix, isIx := rhs.(*ast.IndexExpr)
+				if !isIx || ko == nil || objOf(d.pkg, ix.Index) != ko {
+					continue
+				}
+				if o := objOf(d.pkg, as.Lhs[0]); o != nil {
+					t := o.Type()
+					if pt, isP := t.(*types.Pointer); isP {
+						t = pt.Elem()
+					}
+					if typeIs(t, "", typeName) {
+						out = o
+					}
+				}
+			}
+		}
 		return true
 	})
 	return out
@@ -454,6 +481,93 @@ func readerFlow(d *declInfo, src types.Object, owners map[string]bool, sub map[s
 		for k, v := range readerFlowDepth(hc.d, hc.param, owners, sub) {
 			for f := range v {
 				out.add(k, f)
+			}
+		}
+	}
+	// helpers that receive one field of the source together with the destination
+	// (u.readExternalReferences(n, p.PackageExternalReferences)): what they store into the
+	// destination's fields comes from that field
+	if theProgram != nil && src != nil {
+		for _, cs := range callsIn(d.pkg, d.fd.Body) {
+			if cs.callee.Pkg() == nil || !strings.HasPrefix(cs.callee.Pkg().Path(), modPath+"/") || cs.callee == d.obj {
+				continue
+			}
+			sig, _ := cs.callee.Type().(*types.Signature)
+			if sig == nil || sig.Results().Len() != 0 {
+				continue // value-returning helpers are followed where their result is stored
+			}
+			fd, pk := theProgram.FuncDecl(objName(cs.callee))
+			if fd == nil || fd.Body == nil {
+				continue
+			}
+			var params []types.Object
+			for _, fl := range fd.Type.Params.List {
+				for _, nm := range fl.Names {
+					params = append(params, pk.TypesInfo.Defs[nm])
+				}
+			}
+			for i, a := range cs.call.Args {
+				fields := srcFieldsOf(d, a, src, locals)
+				if len(fields) == 0 || i >= len(params) || params[i] == nil {
+					continue
+				}
+				if id, isId := a.(*ast.Ident); isId && objOf(d.pkg, id) == src {
+					continue // the whole source: handled above
+				}
+				// does the helper use this parameter at all?
+				used := false
+				ast.Inspect(fd.Body, func(n ast.Node) bool {
+					if id, ok := n.(*ast.Ident); ok && pk.TypesInfo.Uses[id] == params[i] {
+						used = true
+					}
+					return true
+				})
+				if !used {
+					continue
+				}
+				// destination fields the helper stores to (through a parameter of an owner type)
+				ast.Inspect(fd.Body, func(n ast.Node) bool {
+					as, ok := n.(*ast.AssignStmt)
+					if !ok {
+						return true
+					}
+					for _, l := range as.Lhs {
+						if ix, isIx := l.(*ast.IndexExpr); isIx {
+							l = ix.X
+						}
+						sel, isSel := l.(*ast.SelectorExpr)
+						if !isSel {
+							continue
+						}
+						bo := objOf(pk, sel.X)
+						isParam := false
+						for _, po := range params {
+							if po == bo && bo != nil {
+								isParam = true
+							}
+						}
+						if !isParam {
+							continue
+						}
+						t := bo.Type()
+						if pt, isP := t.(*types.Pointer); isP {
+							t = pt.Elem()
+						}
+						if nt, isNamed := t.(*types.Named); isNamed && owners[nt.Obj().Name()] {
+							key := sel.Sel.Name
+							if p2, ok := sub[key]; ok {
+								key = p2
+							}
+							if key == "" {
+								continue
+							}
+							for f := range fields {
+								out.add(key, f)
+							}
+						}
+					}
+					return true
+				})
 			}
 		}
 	}
